@@ -29,8 +29,10 @@ structure Seen (K : Type) where
   goal : K
 
 inductive Outcome (K : Type) where
-  /-- success: returned goal value and the error norm of the state left in the Assembler -/
-  | ok (goal err : K)
+  /-- success: returned goal value, the error norm the code *holds* for the state it leaves (`tolAchieved`), and whether
+  the revert rule fired.  Only when `reverted = false` is `err` a value measured on the state left behind: in the revert
+  branch the code reuses `initialErrorNorm`, which was measured before `prescribeQ` moved the prescribed q's. -/
+  | ok (goal err : K) (reverted : Bool)
   /-- `AssembleFailed` / `TrackFailed` thrown -/
   | failed
 
@@ -38,20 +40,20 @@ inductive Outcome (K : Type) where
 whether the optimizer left by an exception (then a result above tolerance is rejected at once, before the revert rule
 is looked at). -/
 def assembleDecide (optThrew : Bool) (tol initErr initGoal : K) (post : Seen K) : Outcome K :=
-  if initErr ≤ tol ∧ initGoal ≤ tol * tol then .ok initGoal initErr
+  if initErr ≤ tol ∧ initGoal ≤ tol * tol then .ok initGoal initErr false
   else if optThrew = true ∧ tol < post.err then .failed
   else
     -- "See if we should just revert to the initial solution."
     let revert : Bool := decide (initErr ≤ tol) && decide (initGoal < post.goal)
     let err := if revert then initErr else post.err
     let goal := if revert then initGoal else post.goal
-    if tol < err then .failed else .ok goal err
+    if tol < err then .failed else .ok goal err revert
 
 /-- `Assembler::track()`: same short circuit, no revert rule (so `optThrew` cannot change the outcome). -/
 def trackDecide (optThrew : Bool) (tol initErr initGoal : K) (post : Seen K) : Outcome K :=
-  if initErr ≤ tol ∧ initGoal ≤ tol * tol then .ok initGoal initErr
+  if initErr ≤ tol ∧ initGoal ≤ tol * tol then .ok initGoal initErr false
   else if optThrew = true ∧ tol < post.err then .failed
-  else if tol < post.err then .failed else .ok post.goal post.err
+  else if tol < post.err then .failed else .ok post.goal post.err false
 
 /-! ### free q's -/
 
